@@ -313,4 +313,86 @@ theorem go_payload (cfg : Cfg) (files : List (List Stmt)) (fuel f : Nat) (body :
       cases substAll st.syms rest with
       | error e => rfl
       | ok ss => simp
+/-! ## the zone table while reading -/
+
+/-- `readFile.go` changes the zone table only by `createZone` -/
+theorem go_zones_pred (P : Zones → Prop) (cfg : Cfg)
+    (hP : ∀ zs name s e zs', createZone cfg.bits zs name s e = .ok zs' → P zs → P zs')
+    (files : List (List Stmt)) (fuel f : Nat)
+    (IH : ∀ g st ls st', readFile cfg files fuel g st = .ok (ls, st') → P st.zones → P st'.zones) :
+    ∀ (stmts : List Stmt) (sc : Scope) (zone : String) (mute : Nat) (cs : CondStack) (st : ReadSt)
+      (acc ls : List Line) (st' : ReadSt),
+      readFile.go cfg files fuel f stmts sc zone mute cs st acc = .ok (ls, st') → P st.zones → P st'.zones := by
+  intro stmts
+  induction stmts with
+  | nil =>
+    intro sc zone mute cs st acc ls st' h hp
+    rw [readFile.go.eq_1] at h
+    cases h
+    exact hp
+  | cons s0 rest ih =>
+    intro sc zone mute cs st acc ls st' h hp
+    rw [readFile.go.eq_def] at h
+    simp only [] at h
+    split at h
+    · obtain ⟨cs', _, h2⟩ := inc_bind_eq_ok h
+      exact ih sc zone mute cs' st acc ls st' h2 hp
+    · split at h
+      · exact ih sc zone mute cs st acc ls st' h hp
+      · split at h
+        · cases h
+        · split at h
+          · -- define
+            obtain ⟨syms, _, h2⟩ := inc_bind_eq_ok h
+            exact ih _ _ _ _ _ _ ls st' h2 hp
+          · -- include
+            obtain ⟨⟨ls1, st1⟩, hr, h2⟩ := inc_bind_eq_ok h
+            simp only [] at h2
+            exact ih _ _ _ _ st1 _ ls st' h2 (IH _ _ _ _ hr hp)
+          · -- label
+            split at h
+            · cases h
+            · split at h
+              · exact ih _ _ _ _ _ _ ls st' h hp
+              · exact ih _ _ _ _ _ _ ls st' h hp
+          · -- const
+            split at h
+            · cases h
+            · split at h
+              · cases h
+              · obtain ⟨L, _, h2⟩ := inc_bind_eq_ok h
+                exact ih _ _ _ _ _ _ ls st' h2 hp
+          · -- org
+            split at h
+            · cases h
+            · exact ih _ _ _ _ _ _ ls st' h hp
+          · -- memzone
+            split at h
+            · cases h
+            · exact ih _ _ _ _ _ _ ls st' h hp
+          · -- createZone
+            obtain ⟨zs, hz, h2⟩ := inc_bind_eq_ok h
+            exact ih _ _ _ _ _ _ ls st' h2 (hP _ _ _ _ _ hz hp)
+          · exact ih _ _ _ _ _ _ ls st' h hp
+          · exact ih _ _ _ _ _ _ ls st' h hp
+          · exact ih _ _ _ _ _ _ ls st' h hp
+
+/-- whatever property of the zone table `createZone` preserves, reading the source preserves -/
+theorem readFile_zones_pred (P : Zones → Prop) (cfg : Cfg)
+    (hP : ∀ zs name s e zs', createZone cfg.bits zs name s e = .ok zs' → P zs → P zs')
+    (files : List (List Stmt)) :
+    ∀ (fuel f : Nat) (st : ReadSt) (ls : List Line) (st' : ReadSt),
+      readFile cfg files fuel f st = .ok (ls, st') → P st.zones → P st'.zones := by
+  intro fuel
+  induction fuel with
+  | zero => intro f st ls st' h; rw [readFile.eq_1] at h; cases h
+  | succ fuel ihf =>
+    intro f st ls st' h hp
+    rw [readFile.eq_2] at h
+    split at h
+    · cases h
+    · split at h
+      · cases h
+      · exact go_zones_pred P cfg hP files fuel f ihf _ _ _ _ _ _ _ ls st' h hp
+
 end BV
